@@ -12,7 +12,10 @@ def sharing_doc(rng):
     """Ids reused by several use / fill / clip-path references, id'd shapes instanced and stroked,
     gradients shared between transformed, untransformed and invisible shapes, ids that collide
     with the names picosvg generates (<id>_<n>, nested-svg-viewport-<n>)."""
-    g = gd.Gen(rng, gradients=True, clips=rng.random() < 0.5, strokes=True, nested_svg=rng.random() < 0.4, unique_fills=False, paint=False)
+    # a root that offers no size at all (no viewBox, not both width and height) still converts as long as
+    # nothing needs the viewport: bounding-box gradients only, no nested svg
+    sizeless = rng.random() < 0.08
+    g = gd.Gen(rng, gradients=True, clips=rng.random() < 0.5, strokes=True, nested_svg=(not sizeless) and rng.random() < 0.4, unique_fills=False, paint=False)
     r = rng
     base = r.choice(("a", "g", "gr", "x", "grad"))
     # any subset of names that look like the ones the conversion generates (<id>_<n>), incl. gaps
@@ -20,7 +23,7 @@ def sharing_doc(rng):
     gids = [base] + r.sample(cand, r.randint(0, 3))
     r.shuffle(gids)
     for gid in gids:
-        g.defs.append(gd.gradient_node(g, r, gid, units=r.choice(("userSpaceOnUse", "objectBoundingBox"))))
+        g.defs.append(gd.gradient_node(g, r, gid, units="objectBoundingBox" if sizeless else r.choice(("userSpaceOnUse", "objectBoundingBox"))))
         g.gradids.append(gid)
     if r.random() < 0.3:
         g.defs.append(gd.Node("clipPath", {"id": "nested-svg-viewport-0"}, [gd.Node("rect", {"x": "0", "y": "0", "width": "50", "height": "50"})]))
@@ -40,6 +43,10 @@ def sharing_doc(rng):
         if r.random() < 0.3:
             s.attrs.update(gd.stroke_props(g, r))
             g.f["idd_shape_stroked"] += 1
+            if r.random() < 0.35:
+                # a gradient as stroke paint - possibly one that nothing uses as a fill
+                s.attrs["stroke"] = f"url(#{r.choice(gids)})"
+                g.f["gradient_stroke_paint"] += 1
         if r.random() < 0.06:
             s.attrs["opacity"] = "0"
             g.f["invisible_gradient_user"] += 1
@@ -56,7 +63,20 @@ def sharing_doc(rng):
     if g.opt["nested_svg"]:
         body.append(g.nested_svg(1))
     root = g.document(body_nodes=body)
-    if r.random() < 0.2:
+    if sizeless:
+        # (a transformed user of a gradient needs the viewport as well: keep these documents untransformed)
+        for n in root.iter():
+            if n.kind == "el" and n.tag not in ("linearGradient", "radialGradient", "svg"):
+                n.attrs.pop("transform", None)
+                if n.tag == "use":
+                    n.attrs.pop("x", None)
+                    n.attrs.pop("y", None)
+        del root.attrs["viewBox"]
+        if r.random() < 0.5:
+            root.attrs["width"] = "100"  # only one of the two
+        g.f["root_without_any_size"] += 1
+        g.f["root_without_viewbox"] += 1
+    elif r.random() < 0.2:
         # no viewBox: the document size (and everything derived from it) comes from width/height
         del root.attrs["viewBox"]
         root.attrs["width"] = "100"
